@@ -12,6 +12,7 @@ import argparse
 import importlib
 import json
 import os
+import re
 import sys
 import time
 import traceback
@@ -119,7 +120,16 @@ def run_check(pid, tier, seed, args):
     if not args.no_lean:
         if hasattr(mod, 'generate'):
             mod.generate(ctx)  # writes lean/MpycV/Generated/*.lean from the running code
-        ok, log = common.lean_build(modules)
+        # the modules the line-protocol drivers import are built too (a no-op when they are up to date): a driver run with
+        # `lean --run` uses the compiled model, which must not be older than the model source
+        drv_mods = []
+        drv_dir = os.path.join(common.LEAN_DIR, 'Drv')
+        for fn_ in sorted(os.listdir(drv_dir)):
+            if fn_.endswith('.lean'):
+                for mod_ in re.findall(r'^import (MpycV\.\S+)', open(os.path.join(drv_dir, fn_)).read(), re.M):
+                    if mod_ not in drv_mods and mod_ not in modules and '.PropsGen.' not in mod_ and '.Generated.' not in mod_:
+                        drv_mods.append(mod_)
+        ok, log = common.lean_build(modules + drv_mods)
         proof['built'] = ok
         if not ok:
             proof['log'] = log[-3000:]
